@@ -84,6 +84,13 @@ class Harness:
         from experimaestro import experiment
         from experimaestro.scheduler import base as sbase
 
+        if how == "gen":
+            from experimaestro import RunMode
+
+            with experiment(self.wd, xp_name, launcher=self.launcher, port=-1, run_mode=RunMode.GENERATE_ONLY):
+                for n in sorted(jobs):
+                    self.W(n=int(n)).tag("n", n).submit()
+            return
         xp = experiment(self.wd, xp_name, launcher=self.launcher, port=-1)
         xp.__enter__()
         try:
@@ -170,7 +177,7 @@ class Harness:
             elif (d / (name + ".pid")).exists():
                 dirs[n] = "running"
             else:
-                dirs[n] = "none?"
+                dirs[n] = "gen"
         idx, bak, bakE = {}, {}, {}
         for x in xps:
             for name, store in (("jobs", idx), ("jobs.bak", bak)):
